@@ -580,7 +580,7 @@ class ISD(model.Document):
 
     # inherited styling
 
-    if not isinstance(element, (model.Br, model.Text, model.Region)):
+    if not isinstance(element, (model.Text, model.Region)):
 
       for inherited_style_prop in parent.iter_styles():
 
@@ -598,7 +598,7 @@ class ISD(model.Document):
 
     # initial value styling
 
-    if not isinstance(element, (model.Br, model.Text)):
+    if not isinstance(element, model.Text):
 
       for initial_style in styles.StyleProperties.ALL:
 
